@@ -304,6 +304,24 @@ func TestCheck(t *testing.T) {
 	// (a) uGO -> Go -> uGO
 	ev.RapidCheck(t, "ugo-go-ugo", n, 1, func(rt *rapid.T) {
 		x := vals.Plain(vals.Opts{MaxDepth: 6}).Draw(rt, "x")
+		// values are graphs, not trees: the same map / array instance may be reachable several times
+		// (as siblings, not as a cycle), and several nil containers are the same (nil) instance
+		switch rapid.IntRange(0, 9).Draw(rt, "sharing") {
+		case 0:
+			x = ugo.Array{x, x}
+			rec.Class("a:shared-instance")
+		case 1:
+			x = ugo.Map{"first": x, "list": ugo.Array{x, ugo.String("s"), x}}
+			rec.Class("a:shared-instance")
+		case 2:
+			if m := firstMap(x); m != nil {
+				x = ugo.Array{x, m, ugo.Map{"again": m}}
+				rec.Class("a:shared-inner-map")
+			}
+		case 3:
+			x = ugo.Array{ugo.Map(nil), x, ugo.Map(nil), ugo.Array(nil), ugo.Map{"n": ugo.Map(nil), "a": ugo.Array(nil)}, ugo.Bytes(nil)}
+			rec.Class("a:several-nil-containers")
+		}
 		rec.Case()
 		dump := canon.Value(x)
 		c := caseA{"a", dump}
@@ -640,6 +658,23 @@ func TestCheck(t *testing.T) {
 			}
 		}
 	})
+}
+
+// firstMap returns the first non-empty map found inside o (depth first), or nil.
+func firstMap(o ugo.Object) ugo.Map {
+	switch v := o.(type) {
+	case ugo.Map:
+		if len(v) > 0 {
+			return v
+		}
+	case ugo.Array:
+		for _, e := range v {
+			if m := firstMap(e); m != nil {
+				return m
+			}
+		}
+	}
+	return nil
 }
 
 // hasNil reports whether a converted value contains a nil Object anywhere.
